@@ -22,8 +22,8 @@ def run(chk):
         build_pqh(chk.log)
         pr = proof_stage(chk, MODULE, THEOREMS + EXTRA_THEOREMS, EXTRA_MODULES, audit_imports=EXTRA_MODULES)
     pair = Pair(chk.log)
-    zs = filelevel.load_zoos(pair, workloads.ZOOS)
-    raw, meta = workloads.file_cases(chk, zs, thorough, per_zoo_cap=(4000 if thorough else 700))
+    zs = filelevel.load_zoos(pair, workloads.WRITER_ZOOS)
+    raw, meta = workloads.file_cases(chk, zs, thorough, per_zoo_cap=(4000 if thorough else 700), zoos=workloads.WRITER_ZOOS)
     raw = [r for r in raw if r[2] == 0 or r[4] != "structural"]   # levels do not depend on the codec
     cases = [filelevel.Case(z, mx, codec, ops, tag) for z, mx, codec, ops, tag in raw]
     filelevel.run_cases(pair, cases, want_read=False, want_parse=False)
